@@ -688,7 +688,9 @@ def check_case(ctx, stream, rq, r):
         out.count(stream + ':wf')
         for sl in sig8_v5_slots(rq).values():
             out.count(stream + ':ref-sig8-to-v5-type-unit', sum(sl))
-        d, known = judge(rq, impl, r['expect'])
+        # every reference slot is judged, the ref_sig8 -> DWARF 5 type unit ones included (the former known finding
+        # sig8-v5-type-unit is fixed: a fixed entry suppresses nothing)
+        d, known = cmp_expect(impl, r['expect']), None
         if d is not None:
             out.violation('property', stream, rq, diff=d, expect=None, got=None)
             return
@@ -925,4 +927,4 @@ FINDINGS = {}
 # DW_FORM_ref_sig8 designating a DWARF 5 type unit (DW_UT_type / DW_UT_split_type in .debug_info): get_DIE_by_sig8 scans
 # only .debug_types and raises KeyError.  Matched on the input class, slot by slot; any other reference problem
 # (v4 .debug_types lookups included) is compared first and reported as a violation.
-FINDINGS['sig8-v5-type-unit'] = lambda v: is_sig8_v5(v)
+# FIXED in /repo (fix: commit 6a8fa76): no predicate any more, the slots are compared like every other reference.
